@@ -207,7 +207,15 @@ pub fn check_discipline(input: &str, out: &str, opts: &Opts, style: &str) -> Dis
                         exempt_verbatim += 1;
                         continue;
                     }
-                    let class = format!("blank-lines:{:?}", g.kind);
+                    // with an upper bound of 0 the unchanged tree keeps a blank line next to a
+                    // comment and next to an empty statement (known finding KF-C08-5); elsewhere a
+                    // surviving blank line is an ordinary violation
+                    let is_comment = |t: Option<&crate::lex::Tok>| t.map(|x| x.kind.is_comment() || x.kind.is_doc()).unwrap_or(false);
+                    let is_semi = |t: Option<&crate::lex::Tok>| t.map(|x| x.text(&out_lf) == ";").unwrap_or(false);
+                    let before_prev = prev_tok.and_then(|p| all_toks.iter().rev().find(|x| x.hi <= p.lo && x.kind != TK::Whitespace));
+                    let empty_stmt_before = is_semi(prev_tok) && before_prev.map(|x| matches!(x.text(&out_lf), ";" | "{" | "}")).unwrap_or(false);
+                    let near_special = is_comment(prev_tok) || is_comment(next_tok) || empty_stmt_before || is_semi(next_tok);
+                    let class = if upper == 0 && near_special { "blank-lines/upper-bound-0".to_string() } else { format!("blank-lines:{:?}", g.kind) };
                     v.push((
                         class,
                         format!("{} blank lines between consecutive {:?} (bound {bound}): {:?}", nl - 1, g.kind, around),
@@ -407,9 +415,12 @@ impl Property for C08 {
         // around empty statements
         if upper == 0 {
             let before = viol.len();
-            for (k, _) in viol.iter_mut() {
-                if k.starts_with("blank-lines:") {
-                    *k = "blank-lines/upper-bound-0".into();
+            // (items of an impl moved by reorder_impl_items keep the blank line that followed them)
+            if opt_bool(&opts, "reorder_impl_items", false) {
+                for (k, _) in viol.iter_mut() {
+                    if k.starts_with("blank-lines:") {
+                        *k = "blank-lines/upper-bound-0".into();
+                    }
                 }
             }
             if !judge_known {
